@@ -153,3 +153,16 @@ Theorem subscribe_unsubscribe_effect :
       (forall l', l' <> l -> subs_of l' (unsubscribe_all_op l S) = subs_of l' S)).
 Proof. exact Lemmas.subscribe_unsubscribe_effect. Qed.
 Print Assumptions subscribe_unsubscribe_effect.
+
+(* deliveries are per broadcast event, not per message identity: the same identity broadcast twice inside a delay block is queued twice and gets two delivery rounds, in order, when the block closes (no de-duplication) *)
+Theorem same_message_twice_delivered_twice : forall fuel w s i c st s' lg,
+  handlers_rf w -> wf_subs (subs s) ->
+  paused s = 0 -> queue s = [] -> ignored s (i, c) = false ->
+  run fuel w s (TAct (Delay [Broadcast i c; Broadcast i c])) = Some (st, s', lg) ->
+  bcasts [Broadcast i c; Broadcast i c] = [(i, c); (i, c)] /\
+  fst (queued (ign s) [Broadcast i c; Broadcast i c]) = [(i, c); (i, c)] /\
+  exists s1,
+    top 0 lg = to_calls (i, c) (find_handlers w (subs s) (i, c)) ++
+               to_calls (i, c) (find_handlers w (subs s1) (i, c)).
+Proof. exact Lemmas.same_message_twice_delivered_twice. Qed.
+Print Assumptions same_message_twice_delivered_twice.
